@@ -467,6 +467,103 @@ def check_insert_effects(chk, prog, unit, doubly, only=None):
     return n
 
 
+def _len_balance(f, u, memo, depth=0):
+    """[(return node, balance or "T")] per enumerated path (unit-local helpers spliced in, flag tests expanded, contradictory
+    paths dropped): +1 for each node a constructor makes, -1 for each `len + 1`; "T" (not followed) after any other store to
+    len, a node deletion, or a helper that touches nodes / len and could not be spliced in"""
+    from . import paths
+    if f.cfg is None:
+        return [(f.body, "T")]
+    helpers = {g.name: g for g in u.functions.values() if g is not f and g.body is not None and not classinfo.is_node_ctor(f.unit, g.name)
+               and not re.search(r"_item_", g.name)}
+    LIM = 2048
+    ps = paths.enumerate_paths(f, limit=LIM, noreturn=NORETURN, inline=helpers, expand=True, decls=True, steps=True)
+    if len(ps) >= LIM:
+        return [(f.body, "T")]
+    delp = deleter_params(u)
+
+    def touches(g):
+        if g.name not in memo:
+            memo[g.name] = False
+            memo[g.name] = bool(len_updates(g, +1) or len_updates(g, -1) or node_deletions(g, delp) or
+                                any(classinfo.is_node_ctor(g.unit, X.callee_name(c) or "") or
+                                    (u.functions.get(X.callee_name(c) or "") is not None and u.functions[X.callee_name(c)].body is not None
+                                     and touches(u.functions[X.callee_name(c)])) for c in X.calls_in(g.body)) or
+                                any(x.get("k") == "member" and x.get("n") == "len" and _is_stored(g, x) for x in walk(g.body)))
+        return memo[g.name]
+
+    def is_len(t):
+        t = X.strip(t)
+        return t is not None and t.get("k") == "member" and t.get("n") == "len"
+    out = []
+    for p in ps:
+        if p and p[-1] == ("noreturn",):
+            continue
+        bal = 0
+        ret = f.body
+        for ev in p:
+            if bal == "T":
+                break
+            if ev[0] == "call":
+                cn = ev[1] or ""
+                if classinfo.is_node_ctor(f.unit, cn):
+                    bal += 1
+                elif re.search(r"_item_del$", cn) or cn in delp:
+                    bal = "T"
+                elif cn in helpers and not paths.inlinable(helpers[cn]) and touches(helpers[cn]):
+                    bal = "T"
+            elif ev[0] == "step" and is_len(ev[2]["ch"][0]):
+                bal = (bal - 1) if ev[1] == "++" else "T"
+            elif ev[0] == "assign" and is_len(ev[2]["ch"][0]):
+                n_ = ev[2]
+                one = (n_.get("op") == "+=" and X.const_val(n_["ch"][1]) == 1)
+                if n_.get("op") == "=":
+                    r = X.strip(n_["ch"][1])
+                    one = r is not None and r.get("k") == "bin" and r.get("op") == "+" and X.const_val(r["ch"][1]) == 1 and canon_eq(n_["ch"][0], r["ch"][0])
+                bal = (bal - 1) if one else "T"
+            elif ev[0] == "ret":
+                ret = ev[1]
+        out.append((ret, bal))
+    return out or [(f.body, "T")]
+
+
+def _is_stored(g, x):
+    par = g.parent.get(x["i"])
+    while par is not None and par.get("k") in ("paren", "icast", "cast"):
+        par = g.parent.get(par["i"])
+    if par is None:
+        return False
+    if par.get("k") == "assign" and X.strip(par["ch"][0]) is x:
+        return True
+    return par.get("k") == "un" and par.get("op") in ("++", "--")
+
+
+def check_len_balance(chk, prog, unit, only=None):
+    """L5 (count follows creation): in a function that only adds nodes, every node a constructor makes - stored into a local,
+    straight into a link or the head, in the function or in a helper - is matched by one `len + 1` on every path to a return
+    (a dataflow over the difference; paths that disagree, decrements, assignments to len and deletions make it undecided)"""
+    u = prog.units[unit]
+    n = 0
+    memo = {}
+    for f in u.functions.values():
+        if only is not None and f.name not in only:
+            continue
+        if re.search(r"_dup$|_item_", f.name):
+            continue
+        makes = [c for c in X.calls_in(f.body) if classinfo.is_node_ctor(f.unit, X.callee_name(c) or "")]
+        if not makes:
+            continue
+        res = _len_balance(f, u, memo)
+        n += 1
+        bad = [(r, v) for r, v in res if v != "T" and v != 0]
+        chk.ob("L5", f.name, "count-follows-creation", not bad, loc=f.loc(bad[0][0]) if bad else f.loc(f.body),
+               detail="%s reaches a return having created %s node(s) more than it added to len: count and chain length disagree "
+                      "(walks bounded by len stop short of / run past the chain)" % (f.name, bad[0][1] if bad else 0),
+               proof="created nodes and len increments balance on every followed path (%d returns, %d not followed)" %
+                     (len(res), sum(1 for _, v in res if v == "T")))
+    return n
+
+
 def check_len_on_remove(chk, prog, unit, only=None):
     """L5: an interface function that takes a node out decrements len (itself or in a helper)"""
     u = prog.units[unit]
@@ -1242,8 +1339,18 @@ def check_chain_derefs(chk, prog, unit, only=None):
         g.run()
         nfn += 1
         seen = {}
+        # the plain nullness facts (a pointer tested on the way: `if (node->prev) node->prev->next = ..` inside a helper that is
+        # handed a node whose position it does not know)
+        tested = {}
+        try:
+            from . import nullness, flow
+            ncfg = nullness.prepared_cfg(f, {"libast_fatal_error"})
+            flow.forward(ncfg, frozenset(), nullness.transfer, refine=nullness.refine,
+                         visit=lambda st_, n_, b_, tested=tested: tested.__setitem__(n_["i"], st_) if n_.get("k") == "member" else None)
+        except Exception:
+            tested = {}
 
-        def v(st, n, blk, f=f, g=g, seen=seen):
+        def v(st, n, blk, f=f, g=g, seen=seen, tested=tested):
             if n.get("k") != "member" or not n.get("arrow"):
                 return
             base = X.strip(n["ch"][0])
@@ -1258,6 +1365,8 @@ def check_chain_derefs(chk, prog, unit, only=None):
             if base.get("k") == "member" and X.strip(base["ch"][0]).get("d") in g.foreign:
                 return
             ok = g.known_nonnull(st, base)
+            if not ok and X.apath(base) is not None and ("nn", X.apath(base)) in tested.get(n["i"], ()):
+                ok = True
             key = canon(f, n)
             prev = seen.get(key)
             if prev is None or (prev[0] and not ok):
